@@ -27,10 +27,14 @@ func (vm *ValidatorManager) IsNeighbor(key types.Ed25519Public) bool {
 		return false
 	}
 
-	if peerIdx, ok := vm.Grid.FindIndex(key); ok {
-		return vm.Grid.IsNeighborInEpoch(vm.SelfIndex, peerIdx)
+	// Any validator of the current set holding this key that shares our row or column.
+	for peerIdx, v := range vm.Grid.Current {
+		if v.Ed25519 == key && vm.Grid.IsNeighborInEpoch(vm.SelfIndex, peerIdx) {
+			return true
+		}
 	}
-	// Not in current set: may still be a grid neighbour at the same index in Previous/Next epoch.
+	// Otherwise it may still be a grid neighbour at the same index in the Previous/Next epoch,
+	// whether or not the key also appears elsewhere in the current set.
 	return vm.Grid.IsSameIndexCrossEpoch(vm.SelfIndex, key)
 }
 
